@@ -11,7 +11,6 @@ import (
 	"strings"
 	"time"
 
-	"github.com/cenkalti/backoff/v4"
 	"github.com/gebn/bmc"
 	"github.com/gebn/bmc/pkg/iana"
 	"github.com/gebn/bmc/pkg/ipmi"
@@ -108,7 +107,8 @@ func (conn *slConn) run(a []string) (string, string) {
 	conn.script, conn.pos, conn.sent, conn.cancel = script, 0, nil, cancel
 	if conn.t == nil {
 		conn.recv = make([]byte, 512)
-		conn.t = bmc.VerifNewV2SessionlessTransport(func(_ context.Context, p []byte) ([]byte, error) {
+		var closeT func()
+		conn.t, closeT = newTransport(func(_ context.Context, p []byte) ([]byte, error) {
 			if conn.pos >= len(conn.script) {
 				conn.cancel()
 				return nil, context.Canceled
@@ -124,7 +124,10 @@ func (conn *slConn) run(a []string) (string, string) {
 				conn.recv[i] = 0xEE
 			}
 			return conn.recv[:copy(conn.recv, r)], nil
-		}, 50*time.Millisecond, &backoff.ZeroBackOff{})
+		}, 50*time.Millisecond)
+		if useUDP {
+			defer closeT()
+		}
 	}
 	t := conn.t
 	c := &rawCmd{op: ipmi.Operation{Function: ipmi.NetworkFunction(fn), Body: ipmi.BodyCode(body), Enterprise: iana.Enterprise(ent),
